@@ -1,11 +1,19 @@
 /-
   C16 — JSON round trip preserves meaning, explicit ids and defaults.
-  PARTIAL at the theorem level: the round trip is proved for the fragment variable / AtLeast
-  (any sign and value — the part repaired by the fix for finding F16a) / AtMost / Any / All /
-  Xor / ExactlyOne, nested arbitrarily.  For All the proof needs the children to stay pairwise
-  distinct after the round trip (`DistinctRT`) — exactly what fails on the models of known finding
-  F16f.  XNor, Imply, Not and the configurator classes are covered by the correspondence (toJson /
-  toAst + build against the real code) and the oracle.
+  Two theorems:
+  * `frag_roundtrip` — the fragment variable / AtLeast (any sign and value — the part repaired by
+    the fix for finding F16a) / AtMost / Any / All / Xor / ExactlyOne, nested arbitrarily: the model
+    read back evaluates identically on EVERY assignment and has the same leaf variables and bounds.
+  * `fragN_roundtrip` — the same plus Imply and XNor nodes (and therefore every model `Not(…)` /
+    `negate` produce, which are AtLeast nodes of some sign and value): the model read back evaluates
+    identically on every assignment inside the leaf bounds.  The work is `nrt_node`: the JSON that
+    `to_json` writes for the negation of the condition held (`toJsonNeg`, mirroring `negate`'s case
+    analysis) reads back as the complement.
+  For All the proofs need the children to stay pairwise distinct after the round trip
+  (`DistinctRT`) — exactly what fails on the models of known finding F16f.
+  PARTIAL: the configurator classes (cc.Any / cc.Xor with defaults, StingyConfigurator) and
+  "keeps defaults" are covered by the correspondence (toJson / toAst + build against the real
+  code) and the oracle only; explicit ids: `id_written_iff` (all classes).
 -/
 import Puan.Model.Json
 import Puan.Lemmas.Build
@@ -208,6 +216,514 @@ theorem frag_roundtrip (t : P) (h : Frag t) :
     ∃ a, PJ.toAst false (toJson t) = some a ∧ (∀ σ, evalPt σ a.build = evalPt σ t) ∧ (leafList a.build).Perm (leafList t) :=
   (frag_rt t h).1
 
+/-! ## The fragment with negations: `Imply`, and everything `negate` / `Not` produce
+
+`Imply(c, d)` is held as `Any(c.negate(), d)` and written as `{"condition": c.negate().negate().to_json(), "consequence": …}`;
+`from_json` negates the condition it reads once more.  `toJsonNeg` mirrors the case analysis of `negate`; the theorems below
+show that what it writes reads back as the complement (`nrt_node`), for every node whose children read back — and with it
+the round trip of `Imply` nodes at any depth.  Assignments are in-bounds (`Good σ t`: the inward push of a negation is
+exact only there, C05). -/
+
+theorem signJ_ok (s v : Int) (hs : s = 1 ∨ s = -1) :
+    signJ s v = none ∨ signJ s v = some 1 ∨ signJ s v = some (-1) := by
+  unfold signJ; split
+  · exact Or.inl rfl
+  · rcases hs with rfl | rfl <;> simp
+
+theorem toJsonSorted_eq : ∀ ks : List P, toJsonSorted ks = toJsonL ks
+  | [] => by simp [toJsonSorted, toJsonL]
+  | k :: ks => by simp [toJsonSorted, toJsonL, toJsonSorted_eq ks]
+
+theorem toAstL_append : ∀ (xs ys : List PJ) (as bs : List Ast), PJ.toAstL false xs = some as →
+    PJ.toAstL false ys = some bs → PJ.toAstL false (xs ++ ys) = some (as ++ bs)
+  | [], ys, as, bs, h1, h2 => by simp [PJ.toAstL] at h1; subst h1; simpa using h2
+  | x :: xs, ys, as, bs, h1, h2 => by
+      simp only [PJ.toAstL] at h1
+      split at h1
+      · rename_i a as' ha has'
+        cases h1
+        simp [PJ.toAstL, ha, toAstL_append xs ys as' bs has' h2]
+      · cases h1
+
+theorem buildL_append : ∀ as bs : List Ast, Ast.buildL (as ++ bs) = Ast.buildL as ++ Ast.buildL bs
+  | [], bs => by simp [Ast.buildL]
+  | a :: as, bs => by simp [Ast.buildL, buildL_append as bs]
+
+theorem buildL_snd : ∀ as : List Ast, (Ast.buildL as).map (·.2) = as.map Ast.build
+  | [] => by simp [Ast.buildL]
+  | a :: as => by simp [Ast.buildL, buildL_snd as]
+
+/-- the constructor call a leaf's JSON reads back as -/
+def varAst (a : P) : Ast := .var a.id a.bnd
+/-- … and the one the JSON of a negated group of atoms reads back as -/
+def groupAst (l : List P) : Ast := .atLeast 0 (l.map varAst) none none
+
+theorem toAstL_leafs : ∀ l : List P, PJ.toAstL false (l.map (fun a => leafJ a.id a.bnd)) = some (l.map varAst)
+  | [] => by simp [PJ.toAstL]
+  | a :: l => by simp [PJ.toAstL, leaf_roundtrip, toAstL_leafs l, varAst]
+
+theorem leaf_eta : ∀ a : P, a.isLeaf = true → P.leaf a.id a.bnd = a
+  | .leaf i b, _ => by simp [P.id, P.bnd]
+  | .node .., h => by simp [isLeaf] at h
+
+theorem buildL_vars : ∀ l : List P, (∀ a ∈ l, a.isLeaf = true) → (Ast.buildL (l.map varAst)).map (·.2) = l
+  | [], _ => by simp [Ast.buildL]
+  | a :: l, h => by
+      simp only [List.map_cons, Ast.buildL, varAst, Ast.build]
+      rw [leaf_eta a (h a (by simp))]
+      congr 1
+      exact buildL_vars l (fun x hx => h x (by simp [hx]))
+
+theorem toAst_group (l : List P) :
+    PJ.toAst false (groupJ (l.map (fun a => leafJ a.id a.bnd))) = some (groupAst l) := by
+  simp [groupJ, PJ.toAst, toAstL_leafs, groupAst]
+
+theorem evalPt_group (σ) (l : List P) (hl : ∀ a ∈ l, a.isLeaf = true) :
+    evalPt σ (groupAst l).build = evalPt σ (negGroup l) := by
+  simp only [groupAst, Ast.build, evalPt_mkAtLeast, C04.sum_orderArgs, buildL_vars l hl, negGroup, evalPt, sgnOf]
+  simp
+
+theorem good_group (σ) (l : List P) (hl : ∀ a ∈ l, a.isLeaf = true) (hg : ∀ a ∈ l, Good σ a) :
+    Good σ (groupAst l).build := by
+  simp only [groupAst, Ast.build]
+  refine good_mkAtLeast σ _ _ _ _ _ (Or.inl rfl) ((C04.goodL_orderArgs σ _).2 ?_)
+  rw [buildL_vars l hl]; exact (GoodL_iff σ l).2 hg
+
+theorem toAstL_wraps : ∀ l : List P,
+    PJ.toAstL false ((l.map (fun a => leafJ a.id a.bnd)).map (fun a => groupJ [a])) = some (l.map (fun a => groupAst [a]))
+  | [] => by simp [PJ.toAstL]
+  | a :: l => by
+      have h := toAst_group [a]
+      simp only [List.map_cons, List.map_nil] at h
+      have ih := toAstL_wraps l
+      simp only [List.map_cons, PJ.toAstL, h, ih]
+
+theorem sum_wraps (σ) : ∀ l : List P, (∀ a ∈ l, a.isLeaf = true) →
+    sumPt σ ((Ast.buildL (l.map (fun a => groupAst [a]))).map (·.2)) = sumPt σ (l.map (fun a => negGroup [a]))
+  | [], _ => by simp [Ast.buildL, sumPt]
+  | a :: l, h => by
+      simp only [List.map_cons, Ast.buildL, sumPt]
+      rw [evalPt_group σ [a] (by simpa using h a (by simp)), sum_wraps σ l (fun x hx => h x (by simp [hx]))]
+
+theorem good_wraps (σ) (l : List P) (hl : ∀ a ∈ l, a.isLeaf = true) (hg : ∀ a ∈ l, Good σ a) :
+    GoodL σ ((Ast.buildL (l.map (fun a => groupAst [a]))).map (·.2)) := by
+  rw [buildL_snd, GoodL_iff]
+  intro k hk
+  simp only [List.map_map, List.mem_map, Function.comp] at hk
+  obtain ⟨a, ha, rfl⟩ := hk
+  exact good_group σ [a] (by simpa using hl a ha) (by simpa using hg a ha)
+
+/-- the children's JSON reads back as constructor calls whose models sum alike (and stay `Good`) -/
+def RTL (ks : List P) : Prop :=
+  ∃ as, PJ.toAstL false (toJsonL ks) = some as ∧
+    ∀ σ, GoodL σ ks → sumPt σ ((Ast.buildL as).map (·.2)) = sumPt σ ks ∧ GoodL σ ((Ast.buildL as).map (·.2))
+
+/-- the JSON of the negated compound children reads back as models summing to (#compounds − their sum) -/
+def NRTL (ks : List P) : Prop :=
+  ∃ cs, PJ.toAstL false (negJsonComps ks) = some cs ∧
+    ∀ σ, GoodL σ ks → sumPt σ ((Ast.buildL cs).map (·.2)) = (comps ks).length - sumPt σ (comps ks) ∧
+      GoodL σ ((Ast.buildL cs).map (·.2))
+
+/-- `from_json (t.negate().to_json())` is a compound that evaluates to the complement of `t` -/
+def NRT (t : P) : Prop :=
+  ∃ a, PJ.toAst false (toJsonNeg t) = some a ∧ a.isAtom = false ∧ a.build.isLeaf = false ∧
+    ∀ σ, Good σ t → evalPt σ a.build = 1 - evalPt σ t ∧ Good σ a.build
+
+/-- `from_json (t.to_json())` evaluates like `t` on every in-bounds assignment (and stays `Good`) -/
+def RTN (t : P) : Prop :=
+  ∃ a, PJ.toAst false (toJson t) = some a ∧ ∀ σ, Good σ t → evalPt σ a.build = evalPt σ t ∧ Good σ a.build
+
+theorem atoms_mem (ks : List P) : ∀ a ∈ (sortById ks).filter (·.isLeaf), a ∈ ks ∧ a.isLeaf = true := by
+  intro a ha
+  have := List.mem_filter.1 ha
+  exact ⟨(sortById_perm ks).mem_iff.1 this.1, this.2⟩
+
+/-- **the negation's JSON reads back as the complement**, for any node (whatever its class) whose children read back -/
+theorem nrt_node (i b s v ks m) (hs : s = 1 ∨ s = -1) (hL : RTL ks) (hN : NRTL ks) : NRT (.node i b s v ks m) := by
+  obtain ⟨as, has, hA⟩ := hL
+  obtain ⟨cs, hcs, hC⟩ := hN
+  have hs' : (-s) = 1 ∨ (-s) = -1 := by omega
+  -- the form that is not pushed inwards
+  have flat : ∀ nid : Option String, ∃ a, PJ.toAst false (.node (some "AtLeast") nid (some (1 - v)) (signJ (-s) (1 - v)) true
+        (toJsonSorted ks) none none none []) = some a ∧ a.isAtom = false ∧ a.build.isLeaf = false ∧
+      ∀ σ, Good σ (.node i b s v ks m) → evalPt σ a.build = 1 - evalPt σ (.node i b s v ks m) ∧ Good σ a.build := by
+    intro nid
+    refine ⟨.atLeast (1 - v) as nid (signJ (-s) (1 - v)), by simp [PJ.toAst, toJsonSorted_eq, has], rfl,
+      by simp [Ast.build, mkAtLeast_isLeaf], ?_⟩
+    intro σ hg
+    have ⟨_, hgk⟩ := good_kids σ i b s v ks m hg
+    have ⟨hsum, hgood⟩ := hA σ hgk
+    refine ⟨?_, good_mkAtLeast σ _ _ _ _ _ (signJ_ok _ _ hs') ((C04.goodL_orderArgs σ _).2 hgood)⟩
+    simp only [Ast.build, evalPt_mkAtLeast, C04.sum_orderArgs, hsum, sgnOf_signJ _ _ hs', evalPt]
+    rcases hs with rfl | rfl <;> (split <;> split <;> omega)
+  -- facts about the atoms, under an in-bounds assignment
+  have hlen : (ks.filter (fun k => !k.isLeaf)).length = (comps ks).length := rfl
+  have one : ∀ w : Int, sgnOf w (signJ 1 w) = 1 := fun w => sgnOf_signJ 1 w (Or.inl rfl)
+  simp only [NRT, toJsonNeg]
+  split
+  · rename_i hc1
+    obtain ⟨rfl, _⟩ := hc1
+    split
+    · -- no atoms: the negated compounds, value raised by their number
+      rename_i ha
+      refine ⟨.atLeast ((1 - v) + ((ks.filter (fun k => !k.isLeaf)).length : Int)) cs (if m.gen then none else some i) (signJ 1 ((1 - v) + ((ks.filter (fun k => !k.isLeaf)).length : Int))), by simp [PJ.toAst, hcs], rfl, by simp [Ast.build, mkAtLeast_isLeaf], ?_⟩
+      intro σ hg
+      have ⟨_, hgk⟩ := good_kids σ i b 1 v ks m hg
+      have ⟨hsum, hgood⟩ := hC σ hgk
+      refine ⟨?_, good_mkAtLeast σ _ _ _ _ _ (signJ_ok _ _ (Or.inl rfl)) ((C04.goodL_orderArgs σ _).2 hgood)⟩
+      have hat : sumPt σ (atoms ks) = 0 := by
+        rw [← sumPt_perm σ (atoms_sort_perm ks)]
+        have ha' : atoms (sortById ks) = [] := ha
+        rw [ha']; rfl
+      have hsplit := sumPt_split σ ks
+      simp only [Ast.build, evalPt_mkAtLeast, C04.sum_orderArgs, hsum, one, evalPt, hlen]
+      split <;> split <;> omega
+    · split
+      · -- value 1, non-negative atoms: the atoms as one negated group
+        rename_i hv
+        obtain ⟨rfl, hnn⟩ := hv
+        let ats := (sortById ks).filter (·.isLeaf)
+        have hats := atoms_mem ks
+        refine ⟨.atLeast ((1 - 1) + (((ks.filter (fun k => !k.isLeaf)).length : Int) + 1)) (cs ++ [groupAst ats]) (if m.gen then none else some i) (signJ 1 ((1 - 1) + (((ks.filter (fun k => !k.isLeaf)).length : Int) + 1))), ?_, rfl, by simp [Ast.build, mkAtLeast_isLeaf], ?_⟩
+        · have h1 : PJ.toAstL false [groupJ (ats.map (fun a => leafJ a.id a.bnd))] = some [groupAst ats] := by
+            simp [PJ.toAstL, toAst_group]
+          simp [PJ.toAst, toAstL_append _ _ _ _ hcs h1, ats]
+        · intro σ hg
+          have ⟨_, hgk⟩ := good_kids σ i b 1 1 ks m hg
+          have ⟨hsum, hgood⟩ := hC σ hgk
+          have hgat : ∀ a ∈ ats, Good σ a := fun a ha => (GoodL_iff σ ks).1 hgk a (hats a ha).1
+          have hlf : ∀ a ∈ ats, a.isLeaf = true := fun a ha => (hats a ha).2
+          have hgg := good_group σ ats hlf hgat
+          have hgl : GoodL σ ((Ast.buildL (cs ++ [groupAst ats])).map (·.2)) := by
+            rw [buildL_append, List.map_append, GoodL_iff]
+            intro k hk
+            rcases List.mem_append.1 hk with hk | hk
+            · exact (GoodL_iff σ _).1 hgood k hk
+            · simp only [Ast.buildL, List.map_cons, List.map_nil, List.mem_singleton] at hk
+              rw [hk]; exact hgg
+          refine ⟨?_, good_mkAtLeast σ _ _ _ _ _ (signJ_ok _ _ (Or.inl rfl)) ((C04.goodL_orderArgs σ _).2 hgl)⟩
+          have h0 := leaves_nonneg σ ats (fun a ha => (hgat a ha).2)
+            (fun a ha => ⟨hlf a ha, by have := List.all_eq_true.1 hnn a ha; simpa using this⟩)
+          have hat : sumPt σ ats = sumPt σ (atoms ks) := sumPt_perm σ (atoms_sort_perm ks)
+          have hsplit := sumPt_split σ ks
+          have hcn := sum_nonneg_nodes σ (comps ks) (by
+            intro k hk; have := (List.mem_filter.1 hk).2; simpa using this)
+          have hgv := evalPt_group σ ats hlf
+          simp only [negGroup, evalPt] at hgv
+          simp only [Ast.build, evalPt_mkAtLeast, C04.sum_orderArgs, buildL_append, List.map_append, sumPt_append, hsum,
+            Ast.buildL, List.map_cons, List.map_nil, sumPt, one, evalPt, hlen, hgv]
+          split <;> split <;> split <;> omega
+      · split
+        · -- boolean atoms: each wrapped and negated on its own
+          rename_i hbool
+          let ats := (sortById ks).filter (·.isLeaf)
+          have hats := atoms_mem ks
+          refine ⟨.atLeast ((1 - v) + (((ks.filter (fun k => !k.isLeaf)).length : Int) + (ats.length : Int))) (cs ++ ats.map (fun a => groupAst [a])) (if m.gen then none else some i)
+            (signJ 1 ((1 - v) + (((ks.filter (fun k => !k.isLeaf)).length : Int) + (ats.length : Int)))), ?_, rfl,
+            by simp [Ast.build, mkAtLeast_isLeaf], ?_⟩
+          · have h2 := toAstL_append _ _ _ _ hcs (toAstL_wraps ats)
+            simp only [List.map_map] at h2
+            simp [PJ.toAst, h2, ats]
+          · intro σ hg
+            have ⟨_, hgk⟩ := good_kids σ i b 1 v ks m hg
+            have ⟨hsum, hgood⟩ := hC σ hgk
+            have hgat : ∀ a ∈ ats, Good σ a := fun a ha => (GoodL_iff σ ks).1 hgk a (hats a ha).1
+            have hlf : ∀ a ∈ ats, a.isLeaf = true := fun a ha => (hats a ha).2
+            have hgl : GoodL σ ((Ast.buildL (cs ++ ats.map (fun a => groupAst [a]))).map (·.2)) := by
+              rw [buildL_append, List.map_append, GoodL_iff]
+              intro k hk
+              rcases List.mem_append.1 hk with hk | hk
+              · exact (GoodL_iff σ _).1 hgood k hk
+              · exact (GoodL_iff σ _).1 (good_wraps σ ats hlf hgat) k hk
+            refine ⟨?_, good_mkAtLeast σ _ _ _ _ _ (signJ_ok _ _ (Or.inl rfl)) ((C04.goodL_orderArgs σ _).2 hgl)⟩
+            have hw := wrap_sum σ ats (fun a ha => (hgat a ha).2)
+              (fun a ha => ⟨hlf a ha, by have := List.all_eq_true.1 hbool a ha; simpa using this⟩)
+            have hat : sumPt σ ats = sumPt σ (atoms ks) := sumPt_perm σ (atoms_sort_perm ks)
+            have hsplit := sumPt_split σ ks
+            have hal : (ats.length : Int) = ((List.filter (fun x => x.isLeaf) (sortById ks)).length : Int) := rfl
+            simp only [Ast.build, evalPt_mkAtLeast, C04.sum_orderArgs, buildL_append, List.map_append, sumPt_append, hsum,
+              sum_wraps σ ats hlf, hw, one, evalPt, hlen]
+            split <;> split <;> omega
+        · exact flat _
+  · exact flat _
+
+/-- an `Imply` node as held: the negated condition `k` (a compound) and the consequence `d`, in either order, `c` = where `k` is -/
+def ImplyShape (ks : List P) (c : Nat) : Prop :=
+  ∃ k d, k.isLeaf = false ∧ ((ks = [k, d] ∧ c = 0) ∨ (ks = [d, k] ∧ c = 1))
+
+/-- an `XNor` node as held: `Any(AtLeast(1, args).negate(), AtMost(1, args).negate())` — the second half is never pushed
+    inwards (`+args ≥ 2`) and is the one `to_json` reads the propositions from (`c` = where it is) -/
+def XNorShape (ks : List P) (c : Nat) : Prop :=
+  ∃ i1 b1 m1 args' i2 b2 m2 args, args'.Perm args ∧
+    ((ks = [negate (.node i1 b1 1 1 args' m1), .node i2 b2 1 2 args m2] ∧ c = 1) ∨
+     (ks = [.node i2 b2 1 2 args m2, negate (.node i1 b1 1 1 args' m1)] ∧ c = 0))
+
+mutual
+/-- the fragment with negations: as `Frag`, plus `Imply` and `XNor` nodes; since the class `AtLeast` admits any value and sign, every
+    model that `negate` / `Not` produce from the fragment is in it as well -/
+def FragN : P → Prop
+  | .leaf _ _ => True
+  | .node _ _ s v ks m =>
+      ((m.cls = .atLeast ∧ (s = 1 ∨ s = -1)) ∨ (m.cls = .atMost ∧ s = -1) ∨ (m.cls = .any ∧ s = 1 ∧ v = 1) ∨
+       (m.cls = .all ∧ v = ks.length ∧ s = (if v > 0 then 1 else -1) ∧ DistinctRT ks) ∨
+       ((m.cls = .xor ∨ m.cls = .exactlyOne) ∧ s = 1 ∧ v = 2 ∧ XorShape ks) ∨
+       (m.cls = .imply ∧ s = 1 ∧ v = 1 ∧ ImplyShape ks m.cond) ∨
+       (m.cls = .xnor ∧ s = 1 ∧ v = 1 ∧ XNorShape ks m.cond)) ∧ FragNL ks
+def FragNL : List P → Prop
+  | [] => True
+  | k :: ks => FragN k ∧ FragNL ks
+end
+
+theorem rtn_atLeast (i b s v ks m) (hcls : m.cls = .atLeast) (hs : s = 1 ∨ s = -1) (hL : RTL ks) :
+    RTN (.node i b s v ks m) := by
+  obtain ⟨as, has, hA⟩ := hL
+  refine ⟨.atLeast v as (idJ i m) (signJ s v), by simp [toJson, hcls, PJ.toAst, has], fun σ hg => ?_⟩
+  have ⟨_, hgk⟩ := good_kids σ i b s v ks m hg
+  have ⟨hsum, hgood⟩ := hA σ hgk
+  refine ⟨?_, good_mkAtLeast σ _ _ _ _ _ (signJ_ok s v hs) ((C04.goodL_orderArgs σ _).2 hgood)⟩
+  simp only [Ast.build, evalPt_mkAtLeast, C04.sum_orderArgs, hsum, sgnOf_signJ s v hs, evalPt]
+
+theorem rtn_atMost (i b v ks m) (hcls : m.cls = .atMost) (hL : RTL ks) : RTN (.node i b (-1) v ks m) := by
+  obtain ⟨as, has, hA⟩ := hL
+  refine ⟨.atMost (-v) as (idJ i m), by simp [toJson, hcls, PJ.toAst, has], fun σ hg => ?_⟩
+  have ⟨_, hgk⟩ := good_kids σ i b (-1) v ks m hg
+  have ⟨hsum, hgood⟩ := hA σ hgk
+  refine ⟨?_, ?_⟩
+  · simp only [Ast.build, C04.evalPt_mkAtMost, C04.sum_orderArgs, hsum, evalPt]
+    split <;> split <;> omega
+  · simp only [Ast.build, mkAtMost]
+    exact good_mkAtLeast σ _ _ _ _ _ (Or.inr (Or.inr rfl)) ((C04.goodL_orderArgs σ _).2 hgood)
+
+theorem rtn_any (i b ks m) (hcls : m.cls = .any) (hL : RTL ks) : RTN (.node i b 1 1 ks m) := by
+  obtain ⟨as, has, hA⟩ := hL
+  refine ⟨.any as (idJ i m), by simp [toJson, hcls, PJ.toAst, has], fun σ hg => ?_⟩
+  have ⟨_, hgk⟩ := good_kids σ i b 1 1 ks m hg
+  have ⟨hsum, hgood⟩ := hA σ hgk
+  refine ⟨?_, ?_⟩
+  · simp only [Ast.build, C04.evalPt_mkAny, hsum, evalPt]
+    split <;> split <;> omega
+  · simp only [Ast.build, mkAny]
+    exact good_mkAtLeast σ _ _ _ _ _ (Or.inl rfl) ((C04.goodL_orderArgs σ _).2 hgood)
+
+theorem rtn_all (i b s v ks m) (hcls : m.cls = .all) (hv : v = ks.length) (hs : s = (if v > 0 then 1 else -1))
+    (hd : DistinctRT ks) (hL : RTL ks) : RTN (.node i b s v ks m) := by
+  obtain ⟨as, has, hA⟩ := hL
+  refine ⟨.all as (idJ i m), by simp [toJson, hcls, PJ.toAst, has], fun σ hg => ?_⟩
+  have ⟨_, hgk⟩ := good_kids σ i b s v ks m hg
+  have ⟨hsum, hgood⟩ := hA σ hgk
+  have hlen : as.length = ks.length := by rw [toAstL_length _ as has, toJsonL_length]
+  have hdc : (distinctCount (Ast.buildL as) : Int) = v := by rw [hd as has, hlen, hv]
+  refine ⟨?_, ?_⟩
+  · simp only [Ast.build, mkAll, evalPt_mkAtLeast, C04.sum_orderArgs, hsum, hdc, evalPt, hs, sgnOf, Option.getD_none]
+  · simp only [Ast.build, mkAll]
+    exact good_mkAtLeast σ _ _ _ _ _ (Or.inl rfl) ((C04.goodL_orderArgs σ _).2 hgood)
+
+theorem rtn_xor (i b ks m) (hcls : m.cls = .xor ∨ m.cls = .exactlyOne) (hx : XorShape ks)
+    (hkids : ∀ k ∈ ks, RTL k.kids) : RTN (.node i b 1 2 ks m) := by
+  obtain ⟨i1, b1, m1, i2, b2, m2, args, hks⟩ := hx
+  have hargs : RTL args := by
+    rcases hks with rfl | rfl
+    · simpa [P.kids] using hkids (.node i1 b1 1 1 args m1) (by simp)
+    · simpa [P.kids] using hkids (.node i1 b1 1 1 args m1) (by simp)
+  obtain ⟨as', has', hA'⟩ := hargs
+  have hjson : kidsOfNth ks 0 = toJsonL args := by rcases hks with rfl | rfl <;> simp [kidsOfNth]
+  have hev : ∀ σ, evalPt σ (.node i b 1 2 ks m) = if sumPt σ args = 1 then 1 else 0 := by
+    intro σ
+    rcases hks with rfl | rfl <;> simp only [evalPt, sumPt] <;> split <;> split <;> split <;> split <;> omega
+  have hgargs : ∀ σ, Good σ (.node i b 1 2 ks m) → GoodL σ args := by
+    intro σ hg
+    have ⟨_, hgk⟩ := good_kids σ i b 1 2 ks m hg
+    have h1 : Good σ (.node i1 b1 1 1 args m1) := (GoodL_iff σ ks).1 hgk _ (by rcases hks with rfl | rfl <;> simp)
+    exact (good_kids σ _ _ _ _ _ _ h1).2
+  have hgood : ∀ σ oid cls, GoodL σ ((Ast.buildL as').map (·.2)) → Good σ (mkXor (Ast.buildL as') oid cls) := by
+    intro σ oid cls hg
+    have hgo := (C04.goodL_orderArgs σ _).2 hg
+    unfold mkXor mkAll
+    refine good_mkAtLeast σ _ _ _ _ _ (Or.inl rfl) ((C04.goodL_orderArgs σ _).2 ((GoodL_iff σ _).2 ?_))
+    intro k hk
+    simp only [List.map_cons, List.map_nil, List.mem_cons, List.not_mem_nil, or_false] at hk
+    rcases hk with rfl | rfl
+    · exact good_mkAtLeast σ _ _ _ _ _ (Or.inl rfl) hgo
+    · unfold mkAtMost; exact good_mkAtLeast σ _ _ _ _ _ (Or.inr (Or.inr rfl)) hgo
+  rcases hcls with hcls | hcls
+  · refine ⟨.xor as' (idJ i m) false, by simp [toJson, hcls, PJ.toAst, hjson, has'], fun σ hg => ?_⟩
+    have ⟨hsum, hgd⟩ := hA' σ (hgargs σ hg)
+    exact ⟨by rw [hev σ]; simp only [Ast.build, C04.evalPt_mkXor, hsum], by simpa [Ast.build] using hgood σ _ _ hgd⟩
+  · refine ⟨.xor as' (idJ i m) true, by simp [toJson, hcls, PJ.toAst, hjson, has'], fun σ hg => ?_⟩
+    have ⟨hsum, hgd⟩ := hA' σ (hgargs σ hg)
+    exact ⟨by rw [hev σ]; simp only [Ast.build, C04.evalPt_mkXor, hsum], by simpa [Ast.build] using hgood σ _ _ hgd⟩
+
+/-- `Imply`: the condition is written as the negation of the negated condition held, and negated again when read -/
+theorem rtn_imply (i b ks m) (hcls : m.cls = .imply) (hx : ImplyShape ks m.cond)
+    (hN : ∀ k ∈ ks, k.isLeaf = false → NRT k) (hR : ∀ k ∈ ks, RTN k) : RTN (.node i b 1 1 ks m) := by
+  obtain ⟨k, d, hkl, hks⟩ := hx
+  have hkm : k ∈ ks := by rcases hks with ⟨rfl, _⟩ | ⟨rfl, _⟩ <;> simp
+  have hdm : d ∈ ks := by rcases hks with ⟨rfl, _⟩ | ⟨rfl, _⟩ <;> simp
+  obtain ⟨c', hc', hatom, hcleaf, hC⟩ := hN k hkm hkl
+  obtain ⟨d', hd', hD⟩ := hR d hdm
+  have hjson : negNth ks m.cond = some (toJsonNeg k) ∧ jsonOther ks m.cond = some (toJson d) := by
+    rcases hks with ⟨rfl, hc⟩ | ⟨rfl, hc⟩ <;> rw [hc] <;> simp [negNth, jsonOther, toJsonL]
+  refine ⟨.imply c' d' (idJ i m), by simp [toJson, hcls, PJ.toAst, hjson.1, hjson.2, PJ.toAstOpt, hc', hd'], fun σ hg => ?_⟩
+  have ⟨_, hgk⟩ := good_kids σ i b 1 1 ks m hg
+  have ⟨hevc, hgc⟩ := hC σ ((GoodL_iff σ ks).1 hgk k hkm)
+  have ⟨hevd, hgd⟩ := hD σ ((GoodL_iff σ ks).1 hgk d hdm)
+  have hk01 : evalPt σ k = 0 ∨ evalPt σ k = 1 := by
+    cases k with
+    | leaf => simp [isLeaf] at hkl
+    | node ki kb ks' kv kks km => exact evalPt01 σ ki kb ks' kv kks km
+  have hb : evalPt σ c'.build = 0 ∨ evalPt σ c'.build = 1 := by rw [hevc]; omega
+  have hnot := C04.evalPt_mkNot σ c'.isAtom (c'.isStr, c'.build) hgc (fun _ => hcleaf) hb
+  have hev : evalPt σ (.node i b 1 1 ks m) = if evalPt σ k + evalPt σ d ≥ 1 then 1 else 0 := by
+    rcases hks with ⟨rfl, _⟩ | ⟨rfl, _⟩
+    · have e : 1 * (evalPt σ k + (evalPt σ d + 0)) = evalPt σ k + evalPt σ d := by omega
+      simp only [evalPt, sumPt, e]
+    · have e : 1 * (evalPt σ d + (evalPt σ k + 0)) = evalPt σ k + evalPt σ d := by omega
+      simp only [evalPt, sumPt, e]
+  refine ⟨?_, ?_⟩
+  · rw [hev]
+    simp only [Ast.build, mkImply, C04.evalPt_setCond, C04.evalPt_mkAny, List.map_cons, List.map_nil, sumPt, hnot, hevc, hevd]
+    split <;> split <;> omega
+  · simp only [Ast.build, mkImply]
+    refine C04.good_setCond σ _ _ ?_
+    unfold mkAny
+    refine good_mkAtLeast σ _ _ _ _ _ (Or.inl rfl) ((C04.goodL_orderArgs σ _).2 ((GoodL_iff σ _).2 ?_))
+    intro x hx
+    simp only [List.map_cons, List.map_nil, List.mem_cons, List.not_mem_nil, or_false] at hx
+    rcases hx with rfl | rfl
+    · simp only [mkNot, hatom, Bool.false_eq_true, if_false]; exact good_negate σ _ hgc
+    · exact hgd
+
+/-- `XNor`: rebuilt from the propositions of the half that `negate` never pushes inwards -/
+theorem rtn_xnor (i b ks m) (hcls : m.cls = .xnor) (hx : XNorShape ks m.cond)
+    (hkids : ∀ k ∈ ks, RTL k.kids) : RTN (.node i b 1 1 ks m) := by
+  obtain ⟨i1, b1, m1, args', i2, b2, m2, args, hperm, hks⟩ := hx
+  have hargs : RTL args := by
+    rcases hks with ⟨rfl, _⟩ | ⟨rfl, _⟩
+    · simpa [P.kids] using hkids (.node i2 b2 1 2 args m2) (by simp)
+    · simpa [P.kids] using hkids (.node i2 b2 1 2 args m2) (by simp)
+  obtain ⟨as', has', hA'⟩ := hargs
+  have hjson : kidsOfNth ks m.cond = toJsonL args := by
+    rcases hks with ⟨rfl, hc⟩ | ⟨rfl, hc⟩ <;> rw [hc] <;> simp [kidsOfNth]
+  refine ⟨.xnor as' (idJ i m), by simp [toJson, hcls, PJ.toAst, hjson, has'], fun σ hg => ?_⟩
+  have ⟨_, hgk⟩ := good_kids σ i b 1 1 ks m hg
+  have hgB : Good σ (.node i2 b2 1 2 args m2) := (GoodL_iff σ ks).1 hgk _ (by rcases hks with ⟨rfl, _⟩ | ⟨rfl, _⟩ <;> simp)
+  have hga : GoodL σ args := (good_kids σ _ _ _ _ _ _ hgB).2
+  have hga' : GoodL σ args' := (goodL_perm σ hperm).2 hga
+  have ⟨hsum, hgd⟩ := hA' σ hga
+  have hsa : sumPt σ args' = sumPt σ args := sumPt_perm σ hperm
+  have hA : evalPt σ (negate (.node i1 b1 1 1 args' m1)) = if sumPt σ args ≥ 1 then 0 else 1 := by
+    have g := good_node σ i1 b1 1 1 args' m1 (Or.inl rfl) hga'
+    rw [C05.negate_compl σ _ g.1 g.2 rfl]
+    simp only [evalPt, hsa]
+    split <;> split <;> omega
+  refine ⟨?_, ?_⟩
+  · simp only [Ast.build, C04.evalPt_mkXNor σ _ _ hgd, hsum]
+    rcases hks with ⟨rfl, _⟩ | ⟨rfl, _⟩
+    · simp only [evalPt, sumPt, hA]
+      split <;> split <;> split <;> split <;> omega
+    · simp only [evalPt, sumPt, hA]
+      split <;> split <;> split <;> split <;> omega
+  · simp only [Ast.build, mkXNor]
+    refine C04.good_setCond σ _ _ ?_
+    unfold mkAny
+    have hgo := (C04.goodL_orderArgs σ _).2 hgd
+    refine good_mkAtLeast σ _ _ _ _ _ (Or.inl rfl) ((C04.goodL_orderArgs σ _).2 ((GoodL_iff σ _).2 ?_))
+    intro x hx
+    simp only [List.map_cons, List.map_nil, List.mem_cons, List.not_mem_nil, or_false] at hx
+    rcases hx with rfl | rfl
+    · exact good_negate σ _ (good_mkAtLeast σ _ _ _ _ _ (Or.inl rfl) hgo)
+    · unfold mkAtMost; exact good_negate σ _ (good_mkAtLeast σ _ _ _ _ _ (Or.inr (Or.inr rfl)) hgo)
+
+/-- what the induction carries for one proposition of the fragment -/
+def ALL (t : P) : Prop := RTN t ∧ RTL t.kids ∧ (t.isLeaf = false → NRT t)
+
+mutual
+theorem fragN_rt : ∀ t : P, FragN t → ALL t
+  | .leaf i b, _ =>
+      ⟨⟨.var i b, by simp [toJson, leaf_roundtrip], fun σ hg => ⟨by simp [Ast.build, evalPt], by simpa [Ast.build] using hg⟩⟩,
+       ⟨[], by simp [P.kids, toJsonL, PJ.toAstL], fun σ _ => ⟨by simp [Ast.buildL, sumPt, P.kids], by simp [Ast.buildL, GoodL, SignOks, InBs]⟩⟩,
+       fun h => by simp [isLeaf] at h⟩
+  | .node i b s v ks m, h => by
+      have ⟨hc, hk⟩ : ((m.cls = .atLeast ∧ (s = 1 ∨ s = -1)) ∨ (m.cls = .atMost ∧ s = -1) ∨ (m.cls = .any ∧ s = 1 ∧ v = 1) ∨
+          (m.cls = .all ∧ v = ks.length ∧ s = (if v > 0 then 1 else -1) ∧ DistinctRT ks) ∨
+          ((m.cls = .xor ∨ m.cls = .exactlyOne) ∧ s = 1 ∧ v = 2 ∧ XorShape ks) ∨
+          (m.cls = .imply ∧ s = 1 ∧ v = 1 ∧ ImplyShape ks m.cond) ∨
+          (m.cls = .xnor ∧ s = 1 ∧ v = 1 ∧ XNorShape ks m.cond)) ∧ FragNL ks := by
+        simpa [FragN] using h
+      obtain ⟨hL, hNL, hkids⟩ := fragN_rtL ks hk
+      have hsign : s = 1 ∨ s = -1 := by
+        rcases hc with ⟨_, hs⟩ | ⟨_, hs⟩ | ⟨_, hs, _⟩ | ⟨_, _, hs, _⟩ | ⟨_, hs, _⟩ | ⟨_, hs, _⟩ | ⟨_, hs, _⟩
+        · exact hs
+        · exact Or.inr hs
+        · exact Or.inl hs
+        · rw [hs]; split <;> simp
+        · exact Or.inl hs
+        · exact Or.inl hs
+        · exact Or.inl hs
+      refine ⟨?_, by simpa [P.kids] using hL, fun _ => nrt_node i b s v ks m hsign hL hNL⟩
+      rcases hc with ⟨hcls, hs⟩ | ⟨hcls, hs⟩ | ⟨hcls, hs, hv⟩ | ⟨hcls, hv, hs, hd⟩ | ⟨hcls, hs, hv, hx⟩ | ⟨hcls, hs, hv, hx⟩ |
+        ⟨hcls, hs, hv, hx⟩
+      · exact rtn_atLeast i b s v ks m hcls hs hL
+      · subst hs; exact rtn_atMost i b v ks m hcls hL
+      · subst hs; subst hv; exact rtn_any i b ks m hcls hL
+      · exact rtn_all i b s v ks m hcls hv hs hd hL
+      · subst hs; subst hv; exact rtn_xor i b ks m hcls hx (fun k hk => (hkids k hk).2.1)
+      · subst hs; subst hv
+        exact rtn_imply i b ks m hcls hx (fun k hk hl => (hkids k hk).2.2 hl) (fun k hk => (hkids k hk).1)
+      · subst hs; subst hv; exact rtn_xnor i b ks m hcls hx (fun k hk => (hkids k hk).2.1)
+theorem fragN_rtL : ∀ ks : List P, FragNL ks → RTL ks ∧ NRTL ks ∧ ∀ k ∈ ks, ALL k
+  | [], _ =>
+      ⟨⟨[], by simp [toJsonL, PJ.toAstL], fun σ _ => ⟨by simp [Ast.buildL, sumPt], by simp [Ast.buildL, GoodL, SignOks, InBs]⟩⟩,
+       ⟨[], by simp [negJsonComps, PJ.toAstL], fun σ _ => ⟨by simp [Ast.buildL, sumPt, comps], by simp [Ast.buildL, GoodL, SignOks, InBs]⟩⟩,
+       by simp⟩
+  | k :: ks, h => by
+      have ⟨h1, h2⟩ : FragN k ∧ FragNL ks := by simpa [FragNL] using h
+      have hk := fragN_rt k h1
+      obtain ⟨⟨as, has, hA⟩, ⟨cs, hcs, hC⟩, hall⟩ := fragN_rtL ks h2
+      have ⟨⟨a, ha, hev⟩, _, hneg⟩ := hk
+      have hsplitG : ∀ σ, GoodL σ (k :: ks) → Good σ k ∧ GoodL σ ks := by
+        intro σ hg
+        simp only [GoodL, SignOks, InBs] at hg
+        exact ⟨⟨hg.1.1, hg.2.1⟩, ⟨hg.1.2, hg.2.2⟩⟩
+      have hcons : ∀ σ (x : P) (l : List P), Good σ x → GoodL σ l → GoodL σ (x :: l) := by
+        intro σ x l hx hl
+        simp only [GoodL, SignOks, InBs]
+        exact ⟨⟨hx.1, hl.1⟩, ⟨hx.2, hl.2⟩⟩
+      refine ⟨⟨a :: as, by simp [toJsonL, PJ.toAstL, ha, has], fun σ hg => ?_⟩, ?_, ?_⟩
+      · have ⟨g1, g2⟩ := hsplitG σ hg
+        have ⟨e1, e2⟩ := hev σ g1
+        have ⟨e3, e4⟩ := hA σ g2
+        exact ⟨by simp [Ast.buildL, sumPt, e1, e3], by simpa [Ast.buildL] using hcons σ _ _ e2 e4⟩
+      · cases k with
+        | leaf ki kb =>
+            refine ⟨cs, by simpa [negJsonComps] using hcs, fun σ hg => ?_⟩
+            have ⟨_, g2⟩ := hsplitG σ hg
+            simpa [comps, isLeaf] using hC σ g2
+        | node ki kb ks' kv kks km =>
+            obtain ⟨c, hc, _, _, hcev⟩ := hneg rfl
+            refine ⟨c :: cs, by simp [negJsonComps, PJ.toAstL, hc, hcs], fun σ hg => ?_⟩
+            have ⟨g1, g2⟩ := hsplitG σ hg
+            have ⟨e1, e2⟩ := hcev σ g1
+            have ⟨e3, e4⟩ := hC σ g2
+            refine ⟨?_, by simpa [Ast.buildL] using hcons σ _ _ e2 e4⟩
+            simp only [Ast.buildL, List.map_cons, sumPt, e1, e3, comps, List.filter_cons, isLeaf, Bool.not_false, if_true,
+              List.length_cons]
+            simp only [comps] at *
+            omega
+      · intro x hx
+        rcases List.mem_cons.1 hx with rfl | hx
+        · exact hk
+        · exact hall x hx
+end
+
+/-- **the round trip preserves meaning, with negations** — for every model of the fragment `FragN` (variables, AtLeast of
+    any sign — hence every `Not(…)` and negated model —, AtMost, Any, All, Xor, ExactlyOne, **Imply** and **XNor**, nested arbitrarily),
+    `from_json(to_json(t))` succeeds and evaluates like `t` on every assignment that respects the leaf bounds -/
+theorem fragN_roundtrip (t : P) (h : FragN t) :
+    ∃ a, PJ.toAst false (toJson t) = some a ∧ ∀ σ, Good σ t → evalPt σ a.build = evalPt σ t :=
+  let ⟨a, ha, hev⟩ := (fragN_rt t h).1
+  ⟨a, ha, fun σ hg => (hev σ hg).1⟩
+
 def idOf : PJ → Option String
   | .var i _ => some i
   | .node _ oid _ _ _ _ _ _ _ _ => oid
@@ -241,5 +757,16 @@ example :
     simp [toJsonL, toJson, leafJ, PJ.toAstL, PJ.toAst] at h
     subst h
     decide
+
+/-- non-vacuity of the Imply / XNor cases: `Imply(Any(a,b), c)` as held — `Any(¬(a+b ≥ 1), c)` with the negated
+    condition at position 0 — is in `FragN`, and the all-zero assignment is `Good` for it -/
+example :
+    let k : P := .node "C" ⟨0,1⟩ (-1) 0 [.leaf "a" ⟨0,1⟩, .leaf "b" ⟨0,1⟩] { cls := .atLeast }
+    let t : P := .node "I" ⟨0,1⟩ 1 1 [k, .leaf "c" ⟨0,1⟩] { cls := .imply, cond := 0 }
+    FragN t ∧ Good (fun _ => 0) t := by
+  refine ⟨?_, by simp [Good, SignOk, SignOks, InB, InBs]⟩
+  simp only [FragN, FragNL, and_true]
+  refine ⟨Or.inr (Or.inr (Or.inr (Or.inr (Or.inr (Or.inl ⟨by simp, by simp, by simp, ?_⟩))))), by simp⟩
+  exact ⟨_, _, rfl, Or.inl ⟨rfl, rfl⟩⟩
 
 end Puan.C16
